@@ -596,4 +596,7 @@ EXTRA_INSTANCE_CONFIGS = {
     "x_n12e14a3k3t40": _mmst(12, 14, 5, 3, 3, 40),   # 3 agents on 12 nodes, 9 of 12 nodes typed (limit 0.8 * 12 = 9.6)
     "x_n10e9a2k4t40": _mmst(10, 9, 5, 2, 4, 40),     # minimum number of edges (a tree), 8 of 10 nodes typed
     "x_n13e20a3k2t40": _mmst(13, 20, 4, 3, 2, 40),   # node count not divisible by the number of agents, max_degree 4
+    "x_n24e26d3a2k8t60": _mmst(24, 26, 3, 2, 8, 60),  # tight degree limit: edges are refused during the spanning-tree walk
 }
+# configurations whose interesting instances are rare get proportionally more reset keys
+EXTRA_BATCH = {"x_n24e26d3a2k8t60": 16}
